@@ -7,7 +7,7 @@ import "strings"
 var typeNames = []string{"T", "Person", "M", "S", "_x", "Ñame", "T1", "a", "Address", "π"}
 var memberNames = []string{"id", "name", "*", "col_1", "\"quoted col\"", "'q'", "1", "x", "añb", "_"}
 var colNames = []string{"id", "name", "t.id", "t.*", "*", "count(*)", "max(a, b)", "\"my col\"", "tbl.\"c\"", "f('x)', 1)", "c1", "t.name", "coalesce(x, 'a,b')"}
-var literals = []string{"1", "'lit'", "'it''s'", "\"dq\"", "NULL", "(1+2)", "f(1, 'a)')", "'$T.x'", "/* c */ 2", "1 -- c\n", "'a,b'", "''", "'\\'", "'C:\\d\\'", "\"\\\"", "'a\\''b'"}
+var literals = []string{"1", "'lit'", "'it''s'", "\"dq\"", "NULL", "(1+2)", "f(1, 'a)')", "'$T.x'", "/* c */ 2", "1 -- c\n", "'a,b'", "''", "'100% off'", "'%d%s'", "a % b", "'\\'", "'C:\\d\\'", "\"\\\"", "'a\\''b'"}
 var blanksGen = []string{" ", "", "  ", "\n", "\t", " /* c */ ", "\r\n", " -- x\n"}
 var sepTokens = []string{" ", "\t", "\n", "\r", "=", ",", "[", ">", "<", "+", "-", "/", "|", "%"}
 var opTokens = []string{"&", "!", "~", "^", ";", "?", "@", "#", ":", "]", ".", ")", "(", "*", "$", "&&", "||", "<>", "!="}
